@@ -104,6 +104,8 @@ func (o cop) String() string {
 		return fmt.Sprintf("Update(g==%d, b=%d)", o.G, o.Val)
 	case "bulkdelete":
 		return fmt.Sprintf("Delete(g==%d)", o.G)
+	case "bulkdouble":
+		return fmt.Sprintf("UpdateFunc(c<%d sorted, c=2c+1)", o.Val)
 	case "createindex", "dropindex":
 		return fmt.Sprintf("%s(%s)", o.Kind, o.Field)
 	case "findbyid":
@@ -222,6 +224,17 @@ func cstep(state, input, output interface{}) (bool, interface{}) {
 		for id, d := range s.docs {
 			if d.g == in.G {
 				delete(s.docs, id)
+			}
+		}
+		return true, s.String()
+	case "bulkdouble":
+		if out.Class != OK {
+			return false, st
+		}
+		for id, d := range s.docs {
+			if d.c < in.Val {
+				d.c = 2*d.c + 1
+				s.docs[id] = d
 			}
 		}
 		return true, s.String()
@@ -428,7 +441,30 @@ func (cr *concRun) client(id int, r *gen.Rng, nops int, groups int64, wg *sync.W
 		core.Tick()
 		var in cop
 		var out cout
-		switch r.Weighted([]int{18, 8, 6, 5, 10, 4, 3, 2, 18, 6, 8, 3, 5, 12, 6, 6}) {
+		switch r.Weighted([]int{18, 8, 6, 5, 10, 4, 3, 2, 18, 6, 8, 3, 5, 12, 6, 6, 0, 7}) {
+		case 17: // read-modify-write over a SORTED selection that depends on the very value it changes: c < t  =>  c = 2c+1.
+			// It does not commute with the point increments, so an implementation that selects in one snapshot and
+			// writes in another produces values no serial order explains.
+			in = cop{Kind: "bulkdouble", Val: int64(1 + r.Intn(3))}
+			q := cr.qBase.Where(query.Field("c").Lt(in.Val))
+			if r.Bool() {
+				q = q.Sort(query.SortOption{Field: "c", Direction: 1})
+			} else {
+				q = q.Sort(query.SortOption{Field: "p", Direction: -1}, query.SortOption{Field: "_id", Direction: 1})
+			}
+			call := cr.tick()
+			err := Do(func() error {
+				return db.UpdateFunc(q, func(d *document.Document) *document.Document {
+					n := d.Copy()
+					cnt, _ := d.Get("c").(int64)
+					n.Set("c", 2*cnt+1)
+					return n
+				})
+			})
+			out = cout{Class: classifyConc(err)}
+			cr.record(id, in, call, out)
+			cr.after(err, in)
+			continue
 		case 0: // insert batch
 			n := r.Range(1, 5)
 			if r.P(35) {
@@ -860,6 +896,17 @@ func RunConcCatalog(c *core.Ctx) {
 	impDir := filepath.Join(c.Scratch, fmt.Sprintf("cat%d", dirSeq))
 	os.MkdirAll(impDir, 0755)
 	defer os.RemoveAll(impDir)
+	// readers: a collection that an import creates comes into being together with its documents. A reader asking
+	// for one of those documents by id gets "no such collection" or the document - never "collection there,
+	// document not" - and never counts fewer documents than the file holds (decided after the run, once it is
+	// known which client created the collection)
+	importIDs := make([][]string, n)
+	var winner int64 = -1
+	var phantomMu sync.Mutex
+	phantom := map[int]string{} // import client -> what a reader saw
+	var stopReaders int32
+	var rwg sync.WaitGroup
+	var readerOps int64
 	for i := 0; i < n; i++ {
 		wg.Add(1)
 		rr := r.Fork()
@@ -867,8 +914,10 @@ func RunConcCatalog(c *core.Ctx) {
 		importFile := ""
 		if rr.P(40) {
 			importFile = filepath.Join(impDir, fmt.Sprintf("imp%d.json", i))
-			os.WriteFile(importFile, []byte(fmt.Sprintf(`[{"_id":"%s","a":1},{"_id":"%s","a":2},{"_id":"%s","a":3}]`, rr.UUID(), rr.UUID(), rr.UUID())), 0644)
+			importIDs[i] = []string{rr.UUID(), rr.UUID(), rr.UUID()}
+			os.WriteFile(importFile, []byte(fmt.Sprintf(`[{"_id":"%s","a":1},{"_id":"%s","a":2},{"_id":"%s","a":3}]`, importIDs[i][0], importIDs[i][1], importIDs[i][2])), 0644)
 		}
+		i := i
 		go func() {
 			defer wg.Done()
 			for attempt := 0; attempt < 3; attempt++ {
@@ -890,6 +939,7 @@ func RunConcCatalog(c *core.Ctx) {
 				switch cls {
 				case OK:
 					atomic.AddInt64(&created, 1)
+					atomic.StoreInt64(&winner, int64(i))
 				case ECollYes:
 					atomic.AddInt64(&existed, 1)
 				case "conflict":
@@ -918,12 +968,59 @@ func RunConcCatalog(c *core.Ctx) {
 			}
 		}()
 	}
+	for k := 0; k < 2; k++ {
+		rwg.Add(1)
+		rr := r.Fork()
+		go func() {
+			defer rwg.Done()
+			for atomic.LoadInt32(&stopReaders) == 0 {
+				core.Tick()
+				ci := rr.Intn(n)
+				if importIDs[ci] == nil {
+					runtime.Gosched()
+					continue
+				}
+				atomic.AddInt64(&readerOps, 1)
+				if rr.Bool() {
+					id := gen.Pick(rr, importIDs[ci])
+					d, err := h.DB.FindById(name, id)
+					if err == nil && d == nil {
+						phantomMu.Lock()
+						phantom[ci] = fmt.Sprintf("FindById(%q, %s) returned (nil, nil): the collection without the document", name, short(id))
+						phantomMu.Unlock()
+					}
+				} else {
+					cnt, err := h.DB.Count(query.NewQuery(name))
+					if err == nil && cnt < 3 {
+						phantomMu.Lock()
+						phantom[-1] = fmt.Sprintf("Count(%q) = %d: the collection with fewer documents than the file holds", name, cnt)
+						phantomMu.Unlock()
+					}
+				}
+			}
+		}()
+	}
 	wg.Wait()
+	atomic.StoreInt32(&stopReaders, 1)
+	rwg.Wait()
 	h.MS.SetPerturb(mon.Perturb{})
-	c.Eval(n)
+	c.Eval(n + int(readerOps))
 	if v := panicMsg.Load(); v != nil {
 		c.Violate("conc:panic", "CreateCollection panicked under concurrency: %s", v)
 		return
+	}
+	if w := int(atomic.LoadInt64(&winner)); created == 1 && w >= 0 && importIDs[w] != nil {
+		// the collection was created by an import: no reader may have seen it without (all of) that file's documents.
+		// (phantom[ci] is only evidence when ci is the winner: a Count below 3 or a missing document of ANOTHER
+		// client's file is what every reader sees once the winner's collection exists.)
+		what, saw := phantom[w]
+		if !saw {
+			what, saw = phantom[-1] // a count below three: evidence whichever import created the collection
+		}
+		if saw {
+			c.Violate("conc:import-not-atomic-to-readers", "ImportCollection(%q) by client %d created the collection on %s, but a concurrent reader saw %s", name, w, backend, what)
+			return
+		}
 	}
 	if created != 1 || otherErr != 0 {
 		c.Violate("conc:catalog-create", "%d goroutines created collection %q concurrently on %s: %d succeeded (want exactly 1), %d got ErrCollectionExist, %d conflicts, %d other errors", n, name, backend, created, existed, conflicts, otherErr)
